@@ -495,8 +495,9 @@ class Oracle:
             ends = self.match(r.ptr, items, ok, binary)
             if ends:
                 got = set(items)
-                missed = [u for u in self.units[max(r.ptr):min(ends)] if not self.skippable(u) and (binary or u['b'] not in got)]
-                missed = missed or [u for u in self.units[max(r.ptr):min(ends)] if not self.skippable(u)]
+                rng_units = self.units[min(r.ptr):max(ends)]
+                missed = [u for u in rng_units if not self.skippable(u) and (binary or u['b'] not in got)]
+                missed = missed or [u for u in rng_units if not self.skippable(u)] or [dict(b=b'?', file=None)]
                 self.v(key, 'reader %s skipped record(s) still on disk, e.g. %r in file %r' % (o, missed[0]['b'][:40], missed[0]['file']))
                 r.ptr = ends
                 return
@@ -1028,13 +1029,16 @@ def main():
     for k, n in seen_keys.items():
         run.count('violation:' + k, n)
     run.rule = RULE
-    run.partial = ['interleavings inside one call (a separate-process reader racing the writer between its EOF read and its '
+    run.partial = ['C13_exactly_once_in_order_partial (+ C13_reads_return_whole_records): proved under g_mono (every new file name '
+                   'positive and above all earlier names) and for line-mode records without embedded newlines; the general clause is '
+                   'refuted (C13_exactly_once_in_order_refuted: a file stamped 0 us; a re-opened writer naming a file at or below an '
+                   'externally deleted newest file; and, on the pinned code, the third auto-refresh site of read())',
+                   'interleavings inside one call (a separate-process reader racing the writer between its EOF read and its '
                    'directory rescan) and partially flushed records with flush=False are below the op-level model',
                    'sub-microsecond / inexactly representable float timestamps are checked by the implementation-side oracle '
                    'only (the model works in integer microseconds; the harness uses stamps that survive the float round trip)',
-                   'C13_exactly_once_in_order is proved for file names that increase over the life of the directory and are '
-                   'positive (see Properties/C13.v for the refuted general form)',
-                   "JSON 'null' records are not generated: read() returns None for them, indistinguishable from 'no data'"]
+                   "JSON 'null' records are not generated: read() returns None for them, indistinguishable from 'no data'",
+                   'zero-length records of bin mode leave no trace in a file and are not part of the written history']
     run.assumptions = ['one writer per directory (documented contract of RollLog)',
                        'records of line modes contain no newline unless written deliberately as several lines',
                        'each public call is atomic with respect to the other object and to external deletions']
